@@ -36,6 +36,8 @@ pub struct Shared {
     pub dyn_ks: Mutex<BTreeMap<(usize, u8), Keyspace>>,
     pub created: Mutex<std::collections::BTreeSet<u8>>,
     pub deleted: Mutex<std::collections::BTreeSet<u8>>,
+    /// highest visible seqno any client has seen at an op boundary
+    pub max_visible: AtomicU64,
 }
 
 /// A write op of a fault run: who, when (stamps and scheduler steps), what it writes
@@ -714,6 +716,7 @@ pub fn run_thr(case: &Case, dir: PathBuf) -> Outcome {
         dyn_ks: Mutex::new(BTreeMap::new()),
         created: Mutex::new(Default::default()),
         deleted: Mutex::new(Default::default()),
+        max_visible: AtomicU64::new(0),
     });
     drop(inst);
     let mut mviews = BTreeMap::new();
@@ -767,6 +770,18 @@ pub fn run_thr(case: &Case, dir: PathBuf) -> Outcome {
                     }
                     sched::yield_point("client_op", 0);
                     client_op(&sh2, ti + 1, op, &mut views, &mut txs);
+                    // the instant handed to new views never moves backwards; if it just did, this
+                    // client looks at once (an ordinary scan of its own, recorded like any other)
+                    let vis = sh2.db.visible_seqno();
+                    let seen = sh2.max_visible.fetch_max(vis, Ordering::SeqCst);
+                    if vis < seen && sh2.cfg.db_kind == DbKind::Plain {
+                        sh2.stats.lock().unwrap().inc("probe_visible_seqno_moved_backwards");
+                        for ks in 0..sh2.cfg.names.len() as u8 {
+                            if sh2.ks.get(ks as usize).is_some_and(|k| k.is_some()) {
+                                client_op(&sh2, ti + 1, &Op::Read(ReadOp::Scan { ks, range: RangeSpec::All, mode: ScanMode::Fwd }), &mut views, &mut txs);
+                            }
+                        }
+                    }
                 }
                 // close whatever is still open (observations of open views count)
                 let open: Vec<u8> = views.keys().copied().collect();
